@@ -7,12 +7,13 @@ usage: tools/selftest_determinism.py [engine:prop ...] [--seeds N] [--reps R]
 import json, os, subprocess, sys, tempfile, shutil, collections
 
 VERIF = os.path.dirname(os.path.dirname(os.path.abspath(__file__)))
+BUILD = os.environ.get("VERIF_BUILD") or os.path.join(VERIF, ".build")
 sys.path.insert(0, os.path.join(VERIF, "tools"))
 from props import PROPS
 
 ENV = dict(os.environ, AWS_ACCESS_KEY_ID="verif", AWS_SECRET_ACCESS_KEY="verif", AWS_EC2_METADATA_DISABLED="true",
            AWS_CONFIG_FILE="/dev/null", AWS_SHARED_CREDENTIALS_FILE="/dev/null",
-           VERIF_GC_BINARY=os.path.join(VERIF, ".build", "partial-aftersun"), VERIF_SKYLIGHT_BINARY=os.path.join(VERIF, ".build", "skylight"))
+           VERIF_GC_BINARY=os.path.join(BUILD, "partial-aftersun"), VERIF_SKYLIGHT_BINARY=os.path.join(BUILD, "skylight"))
 
 def main():
     args = [a for a in sys.argv[1:] if not a.startswith("--") and not a.isdigit()]
@@ -29,7 +30,7 @@ def main():
     try:
         for prop in targets:
             eng = PROPS[prop]["engine"]
-            binary = os.path.join(VERIF, ".build", eng + ".test")
+            binary = os.path.join(BUILD, eng + ".test")
             procs = []
             for gmp in ("1", "4", "16"):
                 for rep in range(reps):
